@@ -345,6 +345,12 @@ def bad_calls():
     B["from_dims_superset_letter_and_name"] = lambda E: Parameter.from_dims_superset(E.full, ("a", "b", "Alpha"))
     B["array_over_subset_with_repeated_letter"] = lambda E: FlodymArray(dims=E.full["a", "b", "a"])
     B["flow_over_subset_with_repeated_letter"] = lambda E: Flow(dims=E.full.get_subset(("t", "Time")), from_process=Process(name="sysenv", id=0), to_process=Process(name="use", id=1))
+    # a zero-dimensional array takes a number or a 0-d ndarray, nothing with entries along an axis
+    B["zero_dim_set_values_vector"] = lambda E: E.s.set_values(np.array([1.0, 2.0, 3.0]))
+    B["zero_dim_setitem_matrix"] = lambda E: E.s.__setitem__(Ellipsis, np.ones((2, 2)))
+    B["zero_dim_ctor_vector"] = lambda E: FlodymArray(dims=E.s.dims, values=np.ones(3))
+    B["zero_dim_ctor_one_entry_vector"] = lambda E: FlodymArray(dims=DimensionSet(dim_list=[]), values=np.ones((1,)))
+    B["zero_dim_result_set_values_vector"] = lambda E: E.x.sum_to(()).set_values(E.x.values[0].copy())
     B["set_values_zero_dim_ndarray"] = lambda E: E.x.set_values(np.asarray(E.x.values[0, 0]).reshape(()))
     B["setitem_whole_zero_dim_ndarray"] = lambda E: E.x.__setitem__(Ellipsis, E.x.sum_to(()).values)
     B["ctor_zero_dim_ndarray_for_1d"] = lambda E: FlodymArray(dims=E.prm.dims, values=np.asarray(E.prm.values[0]).reshape(()))
